@@ -89,6 +89,7 @@ def prepare(workroot, need_options=False):
     if need_options:
         opts = gen.gen_options(REPO, gdir)
         gen.gen_space(REPO, gdir, opts)
+        gen.gen_option_enum(REPO, gdir)
     gen.gen_consts(REPO, gdir)
 
 
